@@ -18,6 +18,7 @@ pub mod c15;
 pub mod c16;
 pub mod c17;
 pub mod c18;
+pub mod c19;
 
 pub fn registry() -> Vec<PropEntry> {
     vec![
@@ -39,5 +40,6 @@ pub fn registry() -> Vec<PropEntry> {
         PropEntry { id: "C16", run: c16::run, replay: c16::replay },
         PropEntry { id: "C17", run: c17::run, replay: c17::replay },
         PropEntry { id: "C18", run: c18::run, replay: c18::replay },
+        PropEntry { id: "C19", run: c19::run, replay: c19::replay },
     ]
 }
